@@ -235,9 +235,10 @@ def gen_heartbeat(src, consts):
     for attr, key in (('self._threshold', 'thr'), ('self._reads_since_check', 'reads'),
                       ('self._writes_since_check', 'writes')):
         vs = _walk_assigns(sbody, attr)
-        if len(vs) != 1:
-            raise ExtractError('start: expected exactly one reset of %s' % attr)
-        start_vals[key] = _int_lit(vs[0], 'start reset of ' + attr)
+        if len(vs) > 1:
+            raise ExtractError('start: more than one reset of %s' % attr)
+        # a value that `start` does not reset keeps what it was: emitted as the identity
+        start_vals[key] = '(%d : Int)' % _int_lit(vs[0], 'start reset of ' + attr) if vs else key
     # ---- _check_for_life_signs -----------------------------------------------------------------
     chk = src.func(HB, cls, '_check_for_life_signs')
     cbody = [st for st in strip_doc(chk.body) if not is_logging(st)]
@@ -312,9 +313,10 @@ def gen_heartbeat(src, consts):
         'def writeIncr (n : Int) : Int := %s' % write_incr,
         '/-- `start`: `if %s: return False` -/' % guard,
         'def startDisabled (interval : Option Int) : Bool :=\n  %s' % disabled,
-        'def startThreshold : Int := %d' % start_vals['thr'],
-        'def startReads : Int := %d' % start_vals['reads'],
-        'def startWrites : Int := %d' % start_vals['writes'],
+        '/-- `start`: counter values after the reset under the lock -/',
+        'def startThreshold (thr : Int) : Int := %s' % start_vals['thr'],
+        'def startReads (reads : Int) : Int := %s' % start_vals['reads'],
+        'def startWrites (writes : Int) : Int := %s' % start_vals['writes'],
         '/-- `_check_for_life_signs`: `if %s: self.send_heartbeat_impl()` -/' % ast.unparse(send_if[0].test),
         'def sendTest (writes : Int) : Bool := decide %s' % send_test,
         '/-- `_check_for_life_signs`: `if %s:` (no read since the last check) -/' % ast.unparse(miss.test),
